@@ -103,8 +103,13 @@ def gen_history(seed, universe, cfg):
                         r = rq.choice(same)
             ctx_funcs.setdefault(cid, []).append(r["func"])
             acts += steps(new_rid(), cid, r, debug, "bg", True)
-            if rq.random() < 0.2:
-                acts.append(["print", acts[-1][1] if acts[-1][0] == "print" else acts[-1][2][1], debug, "bg"])
+            last = acts[-1] if acts[-1][0] != "fault" else acts[-1][2]
+            if rq.random() < 0.2 and len(last) == 4:
+                acts.append(["print", last[1], debug, "bg"])
+            if t != "xla_client" and cfg.get("reprint_targets") and rq.random() < 0.25:
+                # the same graph printed with another target from the same context
+                t2 = rq.choice([x for x in cfg["reprint_targets"] if x != t] or [t])
+                acts.append(["reprint", last[1], t2, rq.choice(cfg.get("debug_levels", {}).get(t2, [0]))])
             threads.append(acts)
         else:
             # compared request: its own context, used for it and its repetitions only
@@ -362,6 +367,36 @@ class Executor:
                     self.on_text(rec, text, req)
                 else:
                     rec["text"] = text
+                self.outputs.append(rec)
+        elif op == "reprint":
+            if req["stage"] not in ("simplified", "printed"):
+                return
+            _, rid, t2, debug = a
+            tm2 = getattr(fa.targets, t2)
+            box = []
+
+            def fn2():
+                box.append(g.tostring(tm2, debug=debug))
+                return g
+
+            try:
+                self.with_fault(fault, fn2) if fault else fn2()
+            except InjectedFault:
+                self.tainted.add(req["cid"])
+                self.bump(self.stats, "aborted_by_injected_fault")
+            except Exception as e:
+                # e.g. a kind or a dtype the other target does not know: no text, nothing to check
+                self.bump(self.stats, "reprint_failed:" + type(e).__name__)
+            if box and isinstance(box[0], str):
+                rec = dict(key=req_key(req, debug) + ":as=" + t2, tag="bg", rid=req["rid"], cid=req["cid"], prior=req["prior"],
+                           rep=req.get("prints", 0) + 1, pos=self.pos, sha=hashlib.sha256(box[0].encode()).hexdigest(),
+                           env=self.env.active, after_abort=False, tmp_counter=None, target=t2, debug=debug)
+                self.bump(self.probes, "graph_printed_with_second_target")
+                self.log.ev("text", rec["key"], rec["sha"][:16])
+                if self.on_text is not None:
+                    self.on_text(rec, box[0], req)
+                else:
+                    rec["text"] = box[0]
                 self.outputs.append(rec)
         else:
             raise KeyError(op)
